@@ -93,7 +93,7 @@ std::string ShellEscape(const std::string& s);          // reference for $in/$ou
 std::string NinjaPathEscape(const std::string& s);      // path inside a manifest
 
 struct GenParams {
-  uint32_t features = F_ALL & ~(F_HOSTILE_NAMES | F_HIDDEN_NOPATH | F_SUBNINJA);
+  uint32_t features = F_ALL & ~(F_HOSTILE_NAMES | F_HIDDEN_NOPATH);
   int max_stmts = 10;
   int max_sources = 5;
   bool cycles = false;       // C17: close a dependency cycle in some scenarios
